@@ -102,8 +102,12 @@ CHECKS = {
         text=('The real Concertina scheduler is run on generated and exhaustively enumerated small configurations with a recording '
               'sql_runner; the start trace is checked against an independent trace specification (inputs first, exactly-once, declared '
               'order and repetitions, stop-signal tolerance, logical termination bound); scheduler-state post-conditions are evaluated '
-              'after every RunOneAction.'),
-        note='trusted: the trace specification in vf/ref/sched_spec.py; configurations limited to the shapes the compiler emits'),
+              'after every RunOneAction. Compiled plans (generated programs with @Ground chains and iterative recursion) are executed '
+              'through ExecuteLogicaProgram with run_in_terminal.SqlRunner on SQLite: the calls received by the sql_runner plus the tables '
+              'each call is observed to read / create (sqlite authorizer) are checked against what the compiler declared (exactly-once, '
+              'repetitions, round-robin order, reads only after production, is_final flags); every subset of <= 4 predicates requested at '
+              'once must return for each the table it returns alone (and what the reference evaluator denotes).'),
+        note='trusted: the trace specification in vf/ref/sched_spec.py and vf/checks/c14_plans.py; scheduler-only configurations limited to the shapes the compiler emits; stop signals cannot be raised by compiled SQLite plans (copy_to_file is DuckDB-only), they are injected in the scheduler-only workload'),
     'C15': dict(
         category='exploration', design_ref='DESIGN.md 4/C15',
         technique='runtime monitor: metamorphic parse of layout variants (noise only at token boundaries) under both parsers, failing variants minimised to the responsible noise item; invariant check on every heritage-aware string of every parsed tree',
